@@ -17,8 +17,6 @@ import (
 	"go.opentelemetry.io/collector/consumer/consumererror"
 	"go.opentelemetry.io/collector/exporter/exporterhelper"
 	"go.opentelemetry.io/collector/exporter/exportertest"
-	"go.opentelemetry.io/collector/pdata/plog"
-	"go.opentelemetry.io/collector/verifharness/pitems"
 	"go.opentelemetry.io/collector/verifharness/sig"
 	"go.opentelemetry.io/collector/verifharness/vt"
 	"go.opentelemetry.io/collector/verifharness/xh"
@@ -36,7 +34,19 @@ type Cfg struct {
 	// requests are merged up to BatchMin items and split into parts of at most BatchMax items.
 	BatchMax int `json:"batch_max,omitempty"`
 	BatchMin int `json:"batch_min,omitempty"`
+	// Signal: "" = logs; traces | metrics | profiles use that signal's request type and storage encoding.
+	Signal string `json:"signal,omitempty"`
 }
+
+func (c Cfg) signal() string {
+	if c.Signal == "" {
+		return sig.Logs
+	}
+	return c.Signal
+}
+
+// curSignal is the signal of the script being run (scripts run one at a time).
+var curSignal = sig.Logs
 
 // OpS is one step of the main run.
 type OpS struct {
@@ -66,16 +76,7 @@ var (
 	errPermanent = errors.New("scripted permanent failure")
 )
 
-func payload(id int64, n int) plog.Logs {
-	ld := plog.NewLogs()
-	sl := ld.ResourceLogs().AppendEmpty().ScopeLogs().AppendEmpty()
-	for i := 0; i < n; i++ {
-		lr := sl.LogRecords().AppendEmpty()
-		lr.Attributes().PutInt(pitems.IDKey, id+int64(i))
-		lr.Body().SetStr("request body")
-	}
-	return ld
-}
+func payload(id int64, n int) any { return sig.Simple(curSignal, id, n) }
 
 func idsOf(v any) []int64 {
 	var out []int64
@@ -186,7 +187,7 @@ func (m *mainRun) startIncarnation() *vt.Finding {
 	m.backoff = 0
 	m.parked = nil
 	m.mu.Unlock()
-	exp, err := xh.NewExporter(sig.Logs, exportertest.NewNopSettings(xh.Type), m.push, options(m.cfg)...)
+	exp, err := xh.NewExporter(curSignal, exportertest.NewNopSettings(xh.Type), m.push, options(m.cfg)...)
 	if err != nil {
 		return vt.Failf("harness/new", "NewExporter: %v", err)
 	}
@@ -364,7 +365,7 @@ func recoverOn(cfg Cfg, contents map[string][]byte, must map[int64]bool) recover
 		return nil
 	}
 	res := recovery{handed: handed}
-	exp, err := xh.NewExporter(sig.Logs, exportertest.NewNopSettings(xh.Type), push, options(cfg)...)
+	exp, err := xh.NewExporter(curSignal, exportertest.NewNopSettings(xh.Type), push, options(cfg)...)
 	if err != nil {
 		panic(err)
 	}
@@ -443,7 +444,7 @@ func bodiesIn(contents map[string][]byte) map[int64]string {
 	for k, v := range contents {
 		func() {
 			defer func() { _ = recover() }()
-			val, err := sig.Decode(sig.Logs, v)
+			val, err := sig.Decode(curSignal, v)
 			if err != nil {
 				return
 			}
@@ -577,6 +578,8 @@ func run(s Script) (nontrivial bool, key string, f *vt.Finding) {
 	b, _ := json.Marshal(s)
 	h := sha256.Sum256(b)
 	key = string(h[:])
+	curSignal = s.Cfg.signal()
+	cQ.Class("signal:" + curSignal)
 	rec, f, stats := runMain(&s)
 	if f != nil {
 		return true, key, f
@@ -655,6 +658,7 @@ func gen(all bool) func(t *rapid.T) Script {
 			Retry:     rapid.Bool().Draw(t, "retry"),
 			Block:     rapid.IntRange(0, 4).Draw(t, "block") == 0,
 		}
+		s.Cfg.Signal = rapid.SampledFrom([]string{"", "", "", "traces", "metrics", "profiles"}).Draw(t, "signal")
 		if rapid.IntRange(0, 2).Draw(t, "legacy_batcher") == 0 {
 			s.Cfg.BatchMax = rapid.IntRange(1, 3).Draw(t, "batch_max")
 			s.Cfg.BatchMin = rapid.IntRange(0, s.Cfg.BatchMax).Draw(t, "batch_min")
